@@ -359,7 +359,7 @@ def c14h(ctx, tu):
         for d in statics:
             t = (d.get("type") or "").strip()
             base = re.sub(r"\[[0-9]*\]$", "", t).strip()
-            trivial = base.endswith("*") or base in ("char", "unsigned char", "signed char", "std::byte", "bool", "int",
+            trivial = base.endswith("*") or base.endswith("&") or base in ("char", "unsigned char", "signed char", "std::byte", "bool", "int",
                                                       "unsigned int", "long", "unsigned long")
             if not trivial:
                 bad = "static local `%s` of type %s is destroyed during static destruction" % (d.get("name"), t)
